@@ -402,14 +402,21 @@ def rule_13_4(rep, fx):
     rep.analysed(sw)
     og = Origins(sw)
     ok = False
+    store_pos = []
     for bb, si, st in sw.statements():
         if st['s'] == 'assign' and st['lhs'].get('p') and st['lhs']['p'][0] == '*':
             v = og._rvalue(st['rv'], bb, si, 0)
             base = og.of_local(st['lhs']['l'], bb, si)
             if term_has(v, lambda x: x == ('param', 2)) and term_has(base, lambda x: x[0] == 'field' and x[1] == 'data_reader_waker'):
                 ok = True
+                store_pos.append((bb, si))
     rep.check(ok, 'R13.4', 'SimpleDataReader::set_waker/store', 'argument stored into self.data_reader_waker',
               'set_waker does not store its argument into the data_reader_waker slot', sw.where())
+    # ... on every path: the waker of the task polling *now* replaces whatever an earlier poll left there
+    Psw = Pos(sw)
+    always = ok and all(Psw.every_path_passes(None, (r, 'term'), via_pos=store_pos, from_entry=True) for r in sw.return_blocks())
+    rep.check(always, 'R13.4', 'SimpleDataReader::set_waker/unconditional', 'the store happens on every path',
+              'set_waker can return without replacing the stored waker: a waker left by an earlier poll (another task, a dropped future) stays registered and the task parked now is never woken', sw.where())
     # Writer wakes the command-queue slot after every pop
     pw = fx.find('rtps::writer::Writer::process_writer_command')
     rep.analysed(pw)
